@@ -2,6 +2,8 @@ import NdnProofs.Props.C07
 import NdnGen.C07
 import NdnProofs.Props.TlvVarGen
 import NdnGen.TlvVar
+import NdnProofs.Props.TlvModelParseGen
+import NdnGen.TlvModelFields
 #print axioms Ndn.C07.parse_total
 #print axioms Ndn.C07.decodePacket_error_classes
 #print axioms Ndn.C07.shipped_decoders_error_classes
@@ -28,3 +30,8 @@ import NdnGen.TlvVar
 #print axioms Ndn.TlvVarGen.all_translated
 #print axioms Ndn.TlvVarGen.parse_tl_num_eq
 #print axioms Ndn.TlvVarGen.parse_and_check_tl_eq
+#print axioms Ndn.TlvModelGen.parse_translated
+#print axioms Ndn.TlvModelGen.uint_parse_from_eq
+#print axioms Ndn.TlvModelGen.bool_parse_from_eq
+#print axioms Ndn.TlvModelGen.bytes_parse_from_eq
+#print axioms Ndn.TlvModelGen.str_parse_from_eq
